@@ -155,6 +155,7 @@ type Machine struct {
 	// selftest (the repository's own tests under the interpreter)
 	entryArgs     func() []value
 	clockTicks    bool
+	condQ         map[*value][]*condTicket
 	symClock      bool
 	prevNow       *Term
 	builders      map[*value]*builderState
@@ -747,6 +748,7 @@ func (m *Machine) resetPath() {
 	m.opts = m.baseOpts
 	m.testFailed, m.testSkipped, m.testCleanups = false, false, nil
 	m.clock = 0
+	m.condQ = nil
 	m.symClock, m.prevNow = false, nil
 	m.builders = nil
 }
